@@ -58,3 +58,14 @@ def diffGenotypes (ph0 ph1 : List Hap) (n : Nat) : Nat :=
   ((List.range n).filter fun i => !sameGenotype (column ph0 i) (column ph1 i)).length
 
 end WhVerif.C11.Spec
+
+namespace WhVerif.C11
+
+/-- entries of `c` listed in the order `τ` -/
+def relabel (τ : Perm) (c : List Nat) : List Nat := τ.map (c.getD · 0)
+
+/-- haplotypes of `ph` listed in the order `τ` (new haplotype `k` = old haplotype `τ k`): what "the haplotypes of a phase
+set are listed in a different order" means in the property text -/
+def relabelHaps (τ : Perm) (ph : List Hap) : List Hap := τ.map (ph.getD · [])
+
+end WhVerif.C11
